@@ -63,9 +63,20 @@ def sh(cmd, timeout, cwd=None, inp=None, env=None):
 # gate + Coq build
 
 def gate_scan(cluster_dirs):
-    """Forbidden constructs anywhere in the development (comments included)."""
+    """Forbidden constructs anywhere in the claimed development (comments included): Common, the
+    cluster under check and every cluster of a claimed property.  Clusters still being written by a
+    builder and not yet claimed are scanned when they are claimed."""
     hits = []
+    scope = set(cluster_dirs) | {'Common'}
+    try:
+        import props as _props
+        claimed = set(json.load(open(os.path.join(ROOT, 'lib', 'claimed.json'))))
+        scope |= {v['cluster'] for k, v in _props.PROPS.items() if k in claimed}
+    except Exception:
+        scope = None
     for base, _dirs, files in os.walk(COQ):
+        if scope is not None and os.path.relpath(base, COQ).split(os.sep)[0] not in scope:
+            continue
         for f in files:
             if not f.endswith('.v'):
                 continue
